@@ -52,6 +52,10 @@ class EvalMixin(InterpBase):
             return ModuleV("numpy")     # the .pyx file's `import numpy as np` (outside the extracted class)
         if name in ("True", "False", "None"):
             return {"True": True, "False": False, "None": None}[name]
+        if fr.spec and name[:1].isupper():
+            ci = self._class_by_name(fr, name)      # specifications may name any repo class
+            if ci is not None:
+                return ClassRef(ci.key, info=ci)
         if name in BUILTINS or name in SPEC_FUNCS:
             return Opaque(("builtin", name))
         if name in self.exc_parents:
@@ -215,6 +219,13 @@ class EvalMixin(InterpBase):
             return BoundMethod(base, "builtin." + name)
         if isinstance(base, ExcV):
             return Opaque(("excattr", name))
+        if isinstance(base, Opaque) and isinstance(base.what, str) and base.what.startswith("construct."):
+            # attribute of a live construct object (e.g. an Enum member): an interned opaque token
+            cache = self.__dict__.setdefault("_opaque_attrs", {})
+            key = (id(base), name)
+            if key not in cache:
+                cache[key] = Opaque(("construct-attr", base.what, name))
+            return cache[key]
         raise Unsupported(f"attribute {name} of {base!r}")
 
     def _class_by_name(self, fr, name):
@@ -484,7 +495,14 @@ class EvalMixin(InterpBase):
                 a0 = truth(self.ev(node.args[0], fr))
                 if a0 is False:
                     return True          # lazy: the consequent may mention names that do not exist on this path
-                return zimplies(a0, truth(self.ev(node.args[1], fr)))
+                try:
+                    b0 = truth(self.ev(node.args[1], fr))
+                except Unsupported as e:
+                    if "has no member" in str(e) or "has no field" in str(e) or "no attribute" in str(e):
+                        b0 = False      # the consequent speaks about a shape the value does not have: false
+                    else:
+                        raise
+                return zimplies(a0, b0)
             if nm == "cast":
                 return self.ev(node.args[1], fr)
             if nm == "super":
@@ -649,6 +667,8 @@ class EvalMixin(InterpBase):
             return self.call_builtin("list", args, kwargs, fr)
         ci = c.info
         if ci is None:
+            if c.key.endswith(":Container") and len(args) == 1 and isinstance(args[0], DictV):
+                return args[0]        # construct.Container(dict): a dict with attribute access
             raise Unsupported(f"instantiate external class {c.key}")
         vc = self.top.value_classes if self.top else {}
         obj = Obj(ci, {})
